@@ -275,10 +275,12 @@ def directed_fragment(draw, mm, max_atoms=5, perturb=True):
         a, b = draw(st.sampled_from(extra))
         ringbonds.append([a, b, draw(st.sampled_from(_bond_choices(mm, order[a], order[b])))])
     ast = dict(molprefix=[], name=draw(st.sampled_from(NAME_POOL)), atoms=atoms, tree=tree, ringbonds=ringbonds, stereo=[])
-    if draw(st.integers(0, 7)) == 0:
-        tot = sum(mm.chg)
-        ast['molprefix'] = [draw(st.sampled_from(['neutral' if tot == 0 else 'positive' if tot == 1 else 'negative' if tot == -1 else 'neutral',
-                                                  'cyclic' if mm.rings else 'linear']))]
+    tot = sum(mm.chg)
+    if draw(st.integers(0, 7)) == 0 or (tot != 0 and draw(st.booleans())):
+        # a charged molecule gets a charge prefix often: 'negative' / 'positive' are the only signed numbers of the language
+        charge = 'neutral' if tot == 0 else 'positive' if tot == 1 else 'negative' if tot == -1 else 'neutral'
+        ast['molprefix'] = [draw(st.sampled_from([charge, charge, 'cyclic' if mm.rings else 'linear'] +
+                                                 (['positive', 'negative', 'neutral'] if tot != 0 else [])))]
         if ast['molprefix'][0] in ('cyclic', 'linear'):
             pass
     if perturb and draw(st.integers(0, 2)) == 0:
